@@ -169,6 +169,8 @@ def monitor(cfg, ev, raised):
             elif (idx('set_result_end') is None and idx('set_result_fail') is None) or a < (idx('set_result_end') if idx('set_result_end') is not None else idx('set_result_fail')):
                 f.append("C02: when_saved ack before the save attempt completed")
     # C07
+    if cfg['backend_fails'] and cfg['ackable'] and cfg['ack_time'] == 2 and acks == 0 and oc != 'noresult' and not raised:
+        f.append("C07: the result backend failed and the message never completed processing (no when_saved acknowledgement: the broker keeps redelivering it)")
     saves = [e for e in ev if e[0] == 'set_result_start']
     if len(saves) != (0 if oc == 'noresult' else 1): f.append(f"C07: {len(saves)} results stored for outcome {oc}")
     elif saves:
